@@ -519,18 +519,32 @@ def r07_4(ctx):
         if not found:
             ctx.violation(["iterate-not-tolerant"], "the result of iterate_directive no longer passes through ignore_err_if_cleaning "
                           "(clean would fail on sources with directive errors)", site=ctx.site(ri, 0))
-    ed = body(ctx, "execute_directive")
-    if ed:
-        clean_e = enum_edges(ed, lib, ADT["Mode"], lambda vs: vs == {"Clean"})
-        reg = C.exclusive_region(ed, clean_e) if clean_e else set()
-        errs = [bb for bb in err_sites(ed) if bb in reg]
-        oks = [bb for bb in ok_sites(ed) if bb in reg]
-        if errs:
-            ctx.violation(["clean-arm-err"], "execute_directive can return an error in its Clean arm", site=ctx.site(ed, errs[0]))
-        elif oks:
-            ctx.ok("Clean arm of execute_directive returns Ok only", site=ctx.site(ed, oks[0]))
+    # errors of clean-mode directive execution are tolerated, not propagated: the Result of the clean-mode executor
+    # (execute_in_clean_mode / execute_directive_temp(_, true)) never reaches `?` or a return value of its caller
+    from rules_err import forward_uses_ext, TRY
+    n = 0
+    mo = modes(ctx)
+    for (b, bb, t) in C.all_call_sites(lib, lambda ns, t: ROLE["execute_in_clean_mode"] in ns or ROLE["execute_directive_temp"] in ns):
+        if b.name == ROLE["execute_in_clean_mode"]:
+            continue          # the executor itself may use `?` internally; its caller decides
+        if not (mo.site_modes(b, bb) <= {"Clean"}) or not mo.site_modes(b, bb):
+            continue
+        n += 1
+        uses = forward_uses_ext(b, t["dest"]["l"])
+        if TRY in uses or "RETURN" in uses:
+            ctx.violation([b.name, "clean-error-propagated"], "an error from executing a directive in Clean mode is propagated (clean must succeed on "
+                          "sources with directive errors)", site=ctx.site(b, bb))
         else:
-            ctx.anchor_missing("Ok return in the Clean arm of execute_directive")
+            ctx.ok("clean-mode directive errors are not propagated|%s" % b.name, site=ctx.site(b, bb))
+    if n == 0:
+        ctx.anchor_missing("a Clean-only call of the clean-mode directive executor")
+
+
+@rule("C07", "R07.5", floor=1)
+def r07_5(ctx):
+    """clean still scans every source line (a skipped line could hide a temp directive): = C16 R16.4"""
+    import rules_text
+    rules_text.r16_4(ctx)
 
 
 # =====================================================================================  C08
@@ -580,6 +594,22 @@ def r08_2(ctx):
             ctx.ok("byte-read compared only|%s|%s" % (s.role, s.key()), site=site, detail=sorted(set(uses)))
 
 
+PARTIAL_READ_RE = None
+
+
+def _handle_read_calls(lib, b):
+    """Read-trait style calls in a body and its closures: [(body, bb, name)]"""
+    import re
+    out = []
+    rx = re.compile(r"(std::io::Read::|as std::io::Read>::|std::io::BufRead::|as std::io::BufRead>::)(\w+)$")
+    for b2 in [b] + lib.closures_of(b):
+        for bb, t in b2.calls():
+            m = rx.search(C.callee_name(t))
+            if m:
+                out.append((b2, bb, m.group(2)))
+    return out
+
+
 FORWARD_NEUTRAL = {
     "<std::result::Result<T, E> as std::ops::Try>::branch",
     "<std::result::Result<T, C> as error_stack::ResultExt>::change_context_lazy",
@@ -626,6 +656,30 @@ def forward_uses(b, local, depth=40):
                 if nm in FORWARD_NEUTRAL:
                     work.append(t["dest"]["l"])
     return out
+
+
+@rule("C08", "R08.2h", floor=0)
+def r08_2h(ctx):
+    """reads of an existing generated file through a handle, in a build mode: only a whole-content read is acceptable"""
+    lib = ctx.lib
+    for s in fs_inventory(ctx):
+        if s.prog.label != "lib" or s.cls != "READ_OPEN" or s.kind != "call" or s.role not in ("OUT", "TMP"):
+            continue
+        if s.role == "TMP" and s.body.name != ROLE["write_temp_file"]:
+            continue          # include arguments are sources, not generated files
+        if not (s.modes & {"Build", "InMemoryBuild"}):
+            continue          # verify streams the output by design (C06 R06.2 guards that protocol)
+        site = _site_ctx(ctx, s)
+        body_root = lib.bodies.get(s.body.root, s.body) if s.body.kind == "Closure" else s.body
+        reads = _handle_read_calls(lib, body_root)
+        names = sorted({n for (_b, _bb, n) in reads})
+        partial = [n for n in names if n not in ("read_to_end",)]
+        if partial:
+            ctx.violation([s.key(), "partial-read", ",".join(partial)], "an existing generated file (%s role) is opened in a build mode and read with %s: "
+                          "a partial or UTF-8-validating read makes the result depend on leftover bytes (only a whole-content byte read compared for "
+                          "equality is hermetic)" % (s.role, partial), site=site, rule="R08.2")
+        else:
+            ctx.ok("handle read of the whole content|%s" % s.key(), site=site, rule="R08.2")
 
 
 @rule("C08", "R08.3", floor=1)
